@@ -602,8 +602,27 @@ func (h *Hub) stopTopicsForUser(uid types.Uid, reason int, alldone chan<- bool) 
 	count := 0
 	h.topics.Range(func(name any, t any) bool {
 		topic := t.(*Topic)
-		if _, isMember := topic.perUser[uid]; (topic.cat != types.TopicCatGrp && isMember) ||
-			topic.owner == uid {
+		// The map of subscribers belongs to the topic's goroutine and must not be read here: for 'me', 'fnd'
+		// and p2p topics membership follows from the topic's name.
+		isMember := false
+		var otherUser types.Uid
+		if tname, ok := name.(string); ok {
+			switch types.GetTopicCat(tname) {
+			case types.TopicCatMe:
+				isMember = tname == uid.UserId()
+			case types.TopicCatFnd:
+				isMember = tname == uid.FndName()
+			case types.TopicCatP2P:
+				if u1, u2, err := types.ParseP2P(tname); err == nil {
+					if u1 == uid {
+						isMember, otherUser = true, u2
+					} else if u2 == uid {
+						isMember, otherUser = true, u1
+					}
+				}
+			}
+		}
+		if isMember || topic.owner == uid {
 			if topic.isDeleted() {
 				// Someone else (the hub on idle timeout or on {del topic}) is stopping this topic right now:
 				// its goroutine may be gone already and would never report back.
@@ -621,8 +640,8 @@ func (h *Hub) stopTopicsForUser(uid types.Uid, reason int, alldone chan<- bool) 
 			}
 
 			// Just send to p2p topics here.
-			if topic.cat == types.TopicCatP2P && len(topic.perUser) == 2 {
-				presSingleUserOfflineOffline(topic.p2pOtherUser(uid), uid.UserId(), "gone", nilPresParams, "")
+			if !otherUser.IsZero() && len(topic.perUser) == 2 {
+				presSingleUserOfflineOffline(otherUser, uid.UserId(), "gone", nilPresParams, "")
 			}
 		}
 		return true
